@@ -1503,13 +1503,46 @@ func (e *Engine) hexSprintf(name string, args []Value) (Value, bool) {
 	switch v := iv.alts[0].v.(type) {
 	case SliceV:
 		if bs, ok = e.sliceElems(v); !ok {
-			// length = ite(c, K, 0) (a value merged with the zero value of an error path): one alternative per length
-			if l := v.len; l.op == OpIte && l.args[1].IsConst() && l.args[2].IsConst() && l.args[2].val == 0 && l.args[1].val > 0 {
-				w := v
-				w.len = l.args[1]
-				if full, ok2 := e.sliceElems(w); ok2 {
+			// length = nested ite over constants (a value merged with the zero value of error paths): one alternative
+			// per possible length
+			type leaf struct {
+				c *Term
+				n uint64
+			}
+			var leaves []leaf
+			okL := true
+			var walk func(t, c *Term, d int)
+			walk = func(t, c *Term, d int) {
+				switch {
+				case t.IsConst():
+					leaves = append(leaves, leaf{c, t.val})
+				case t.op == OpIte && d < 4:
+					walk(t.args[1], And(c, t.args[0]), d+1)
+					walk(t.args[2], And(c, Not(t.args[0])), d+1)
+				default:
+					okL = false
+				}
+			}
+			walk(v.len, TS.True, 0)
+			if okL && len(leaves) > 0 && len(leaves) <= 8 {
+				var alts []StrAlt
+				for _, lf := range leaves {
+					if lf.n == 0 {
+						alts = append(alts, StrAlt{c: lf.c, s: ""})
+						continue
+					}
+					w := v
+					w.len = BV(64, lf.n)
+					full, ok2 := e.sliceElems(w)
+					if !ok2 {
+						okL = false
+						break
+					}
 					sv := e.hexAtom(f, full)
-					return StringV{[]StrAlt{{c: l.args[0], atom: sv.alts[0].atom, alen: sv.alts[0].alen}, {c: Not(l.args[0]), s: ""}}}, true
+					alts = append(alts, StrAlt{c: lf.c, atom: sv.alts[0].atom, alen: sv.alts[0].alen})
+				}
+				if okL {
+					return normStr(alts), true
 				}
 			}
 			return nil, false
